@@ -795,19 +795,25 @@ func (f *STFS) Rename(oldname, newname string) error {
 		}
 	}
 
-	if _, err := inventory.Stat(
+	parent, err := inventory.Stat(
 		f.metadata,
 
 		filepath.Dir(newname),
 		false,
 
 		f.onHeader,
-	); err != nil {
+	)
+	if err != nil {
 		if err == sql.ErrNoRows {
 			return os.ErrNotExist
 		}
 
 		return err
+	}
+
+	// Entries can only be moved below directories
+	if parent.Typeflag != tar.TypeDir {
+		return config.ErrIsFile
 	}
 
 	target, err := inventory.Stat(
